@@ -58,6 +58,9 @@ type Result struct {
 	Mode string // type of that File: dir reg sym sock fifo chr blk
 	N    int    // count (ReadAt/WriteAt), xattr length
 	Vals map[string]any
+	// Barrier, if set, is spun on after the reply has been received: setting it to 1 lets
+	// several calls return at the same instant.
+	Barrier *int32
 }
 
 // Controller receives the calls of all puppet files of one server.
@@ -149,6 +152,12 @@ func (c *Controller) do(call *Call) Result {
 	call.Reply = make(chan Result, 1)
 	c.Calls <- call
 	r := <-call.Reply
+	if r.Barrier != nil {
+		// released together with other calls (see Auto.ReleaseTogether): spin, so that every
+		// caller is running on a processor of its own when the flag flips
+		for atomic.LoadInt32(r.Barrier) == 0 {
+		}
+	}
 	if r.Res == "panic" {
 		panic(fmt.Sprintf("puppet: injected panic in %s on file %d", call.K, call.F))
 	}
